@@ -226,6 +226,12 @@ fn build_struct_json_body(struct_def: &StructDef, attr_ptr: &MySyntaxNodePtr) ->
         };
     }
 
+    // Bind the fields to generated names: a field may be called like a helper
+    // the generated code refers to (`bool_to_json`, `json_escape_string`, ...).
+    let bindings: Vec<AstIdent> = (0..struct_def.fields.len())
+        .map(|idx| AstIdent::new(&format!("__field{}", idx)))
+        .collect();
+
     let mut parts = Vec::new();
     parts.push(Expr::EString {
         value: "{".to_string(),
@@ -247,7 +253,7 @@ fn build_struct_json_body(struct_def: &StructDef, attr_ptr: &MySyntaxNodePtr) ->
         });
         // field value as JSON
         parts.push(call_to_json(
-            var_expr(field_name, attr_ptr),
+            var_expr(&bindings[idx], attr_ptr),
             Some(field_ty),
             attr_ptr,
         ));
@@ -267,11 +273,12 @@ fn build_struct_json_body(struct_def: &StructDef, attr_ptr: &MySyntaxNodePtr) ->
                     fields: struct_def
                         .fields
                         .iter()
-                        .map(|(field_name, _)| {
+                        .zip(bindings.iter())
+                        .map(|((field_name, _), binding)| {
                             (
                                 field_name.clone(),
                                 Pat::PVar {
-                                    name: field_name.clone(),
+                                    name: binding.clone(),
                                     astptr: *attr_ptr,
                                 },
                             )
@@ -371,6 +378,12 @@ fn build_struct_body(struct_def: &StructDef, attr_ptr: &MySyntaxNodePtr) -> Expr
         };
     }
 
+    // Bind the fields to generated names: a field may be called like a helper
+    // the generated code refers to (`bool_to_json`, `json_escape_string`, ...).
+    let bindings: Vec<AstIdent> = (0..struct_def.fields.len())
+        .map(|idx| AstIdent::new(&format!("__field{}", idx)))
+        .collect();
+
     let mut parts = Vec::new();
     parts.push(Expr::EString {
         value: format!("{} {{ ", struct_def.name.0),
@@ -383,7 +396,7 @@ fn build_struct_body(struct_def: &StructDef, attr_ptr: &MySyntaxNodePtr) -> Expr
             astptr: *attr_ptr,
         });
         parts.push(call_to_string(
-            var_expr(field_name, attr_ptr),
+            var_expr(&bindings[idx], attr_ptr),
             Some(field_ty),
             attr_ptr,
         ));
@@ -409,11 +422,12 @@ fn build_struct_body(struct_def: &StructDef, attr_ptr: &MySyntaxNodePtr) -> Expr
                     fields: struct_def
                         .fields
                         .iter()
-                        .map(|(field_name, _)| {
+                        .zip(bindings.iter())
+                        .map(|((field_name, _), binding)| {
                             (
                                 field_name.clone(),
                                 Pat::PVar {
-                                    name: field_name.clone(),
+                                    name: binding.clone(),
                                     astptr: *attr_ptr,
                                 },
                             )
